@@ -37,6 +37,20 @@ Theorem C38_accepted_disjoint_any_sizes : forall (v : raw_volume) (l : list stru
 Proof. exact accepted_disjoint_any_sizes. Qed.
 Print Assumptions C38_accepted_disjoint_any_sizes.
 
+(* ... and they stay inside the volume: every structure ends at or before the end of the last one, which is below 2^64 *)
+Theorem C38_inside_volume : forall (v : raw_volume) (l : list structure),
+  accept v = Some l -> Forall fits (on_disk l) ->
+  Forall (fun p => fst p + snd p <= layout_end (on_disk l)) (on_disk l) /\ (on_disk l <> [] -> layout_end (on_disk l) < W).
+Proof. exact accepted_inside_volume'. Qed.
+Print Assumptions C38_inside_volume.
+
+(* offset-write: in an accepted volume every 4-byte offset-write pointer lies inside the min-size of the first structure, which
+   then is at offset 0 (form `name+off`, name = the first structure), or inside the minimal volume size (absolute form) *)
+Theorem C38_offset_write_inside : forall (v : raw_volume) (l : list structure) (first : structure) (r : list structure),
+  accept v = Some l -> l = first :: r -> Forall (ow_inside first (vol_min_size l)) l.
+Proof. exact accepted_offset_write_inside. Qed.
+Print Assumptions C38_offset_write_inside.
+
 (* the entries of the layout are the structures: same sizes, declared offsets respected, the MBR at 0 *)
 Theorem C38_layout_is_of_the_structures : forall (v : raw_volume) (l : list structure),
   accept v = Some l ->
@@ -101,4 +115,30 @@ Example C38_nonvacuous :
 Proof.
   eexists. eexists. split; [vm_compute; reflexivity|]. split; [|split; [vm_compute; reflexivity|split; reflexivity]].
   repeat constructor.
+Qed.
+
+(* non-vacuity of the any-sizes theorem: the floating structure s2 (min 1M, size 2M) and its predecessor at their minimal sizes *)
+Example C38_any_sizes_nonvacuous :
+  let v := RV false [ RS (Some (Q 1 UM)) (Some (Q 2 UM)) (Some (Q 1 UM)) false true None [];
+                      RS None (Some (Q 2 UM)) (Some (Q 1 UM)) false true None [];
+                      RS (Some (Q 5 UM)) (Some (Q 1 UM)) None false true None [] ] in
+  exists l, accept v = Some l /\ Forall fits (on_disk l) /\
+            Forall2 (fun s z => z <= s_size s) l [1048576; 1048576; 1048576] /\
+            on_disk l = [(1048576, 2097152); (3145728, 2097152); (5242880, 1048576)] /\
+            on_disk_sized l [1048576; 1048576; 1048576] = [(1048576, 1048576); (2097152, 1048576); (5242880, 1048576)].
+Proof.
+  eexists. split; [vm_compute; reflexivity|]. split; [repeat constructor|].
+  split; [repeat constructor; vm_compute; discriminate|]. split; reflexivity.
+Qed.
+
+(* non-vacuity of the offset-write theorem: relative and absolute forms accepted, one byte too far refused *)
+Example C38_offset_write_nonvacuous :
+  let mk ow := RV false [ RS None (Some (Q 440 UB)) None true false None [];
+                          RS (Some (Q 1 UM)) (Some (Q 1 UM)) None false true ow [] ] in
+  (exists l, accept (mk (Some (Some 0, Q 436 UB))) = Some l) /\ accept (mk (Some (Some 0, Q 437 UB))) = None /\
+  (exists l, accept (mk (Some (None, Q 2097148 UB))) = Some l) /\ accept (mk (Some (None, Q 2097149 UB))) = None /\
+  accept (mk (Some (Some 1, Q 0 UB))) = None.
+Proof.
+  split; [eexists; vm_compute; reflexivity|]. split; [vm_compute; reflexivity|].
+  split; [eexists; vm_compute; reflexivity|]. split; vm_compute; reflexivity.
 Qed.
